@@ -359,8 +359,16 @@ class VExecutor:
 
 
 async def _cf_result(self, timeout=None):
-    while not self.done():
-        await Tok('blocked', self.done)
+    if timeout is None:
+        while not self.done():
+            await Tok('blocked', self.done)
+    else:
+        w = CUR['w']
+        dl = w.now + timeout
+        while not self.done():
+            if w.now >= dl:
+                raise concurrent.futures.TimeoutError()
+            await Tok('timed', (self.done, dl))
     return concurrent.futures.Future.result(self)
 NATIVE[concurrent.futures.Future.result] = _cf_result
 
